@@ -23,7 +23,8 @@ ASSUMPTIONS = [
 
 
 def bounds(tier):
-    return dict(typing="all enzyme geometries x {module, vector} x default + boundary lengths x all n rotations x {method, string}",
+    return dict(positions="default lengths: the statement on positions (index track on a fully annotated record) at all n rotations",
+                typing="all enzyme geometries x {module, vector} x default + boundary lengths x all n rotations x {method, string}",
                 assembly="all enzyme geometries x k in 1..3 x schemes {0,1}; rotation of one participant: " + ("vector and first module" if tier == "quick" else "each participant"),
                 ambiguity="BsaI, BbsI, BspQI, FokI, BccI: each of the 11 ambiguity codes (both cases) at one position of each region of module and vector",
                 registry="all registry plasmids with exactly two cutter sites, signature-free class, " + ("rotation 0 and 4 window rotations" if tier == "quick" else "structure window"))
